@@ -2,6 +2,7 @@ import Pandora.Drv.Util
 import Pandora.Model.C16
 import Pandora.Model.C16Locals
 import Pandora.Model.C16Ammo
+import Pandora.Model.C16Src
 import Pandora.Spec.C16
 import Pandora.Gen.HclYaml
 
@@ -166,13 +167,22 @@ def parseExpr (s : String) : Option E :=
   | some (e, []) => some e
   | _ => none
 
-def blocksOf : E → Option (List (List (String × E)))
+/-- the reserved key under which a `locals` block of the encoded syntax tree carries a label (`locals "x" { … }`);
+not an identifier, so it cannot be the name of a local -/
+def labelKey : String := "!label"
+
+def labelsOf : List (String × E) → List String
+  | [] => []
+  | (k, .str s) :: r => if k == labelKey then s :: labelsOf r else labelsOf r
+  | _ :: r => labelsOf r
+
+def blocksOf : E → Option (List LBlock)
   | .seq xs => xs.mapM fun
-    | .map kvs => some kvs
+    | .map kvs => some ⟨labelsOf kvs, kvs.filter fun p => p.1 != labelKey⟩
     | _ => none
   | _ => none
 
-def parseFile (lb hb : String) : Option HclFile := do
+def parseFile (lb hb : String) : Option HclSrc := do
   let l ← parseExpr lb
   let bs ← blocksOf l
   let b ← parseExpr hb
@@ -256,8 +266,8 @@ end
 /-! ### ammo digest (same format as `digestOf` / `rle` of harness/cmd/c16/main.go) -/
 
 def digestRow (a : AmmoRow) : String :=
-  hexOf a.name ++ "@" ++ toString a.minWait ++ "[" ++
-    ",".intercalate (a.steps.map fun p => hexOf p.1 ++ ":" ++ toString p.2) ++ "]"
+  hexOf a.name ++ "@" ++ toString (nsToMs a.minWait) ++ "[" ++
+    ",".intercalate (a.steps.map fun p => hexOf p.1 ++ ":" ++ toString (nsToMs p.2)) ++ "]"
 
 /-- consecutive equal entries once, with a repeat count -/
 def rleRows : List AmmoRow → Option (AmmoRow × Nat) → List String
@@ -277,7 +287,7 @@ def ammoSmall (r : Option V) : Bool :=
     (spreadCounts scs).foldl (fun a p => a + p.2) 0 ≤ 100000 &&
     scs.all fun s => s.requests.all fun sh =>
       match parseShootName sh with
-      | some (_, cnt, _) => cnt ≤ 10000
+      | some (name, cnt, _) => name == "sleep" || cnt ≤ 10000   -- the argument of `sleep` is a duration, not a count
       | none => true
 
 def ammoToken (r : Option V) : String :=
@@ -321,10 +331,34 @@ def predictRefused (d : V) : String :=
 /-- the description the HCL spelling denotes under function table `F`: evaluated from its syntax tree and converted to
 the types of the HCL structs; `none` = the input carries no syntax tree (the description itself is the file);
 `some none` = the file does not evaluate -/
-def denoted (F : List (String × String)) (kv : List (String × String)) : Option (Option V) :=
+def denoted (strict : Bool) (F : List (String × String)) (kv : List (String × String)) : Option (Option V) :=
   match lookup kv "hb" with
   | none => none
-  | some hb => some ((parseFile (getS kv "lb" "[]") hb).bind (hclDescription tables F))
+  | some hb => some ((parseFile (getS kv "lb" "[]") hb).bind (srcDescription tables strict F))
+
+/-- does `ParseHCLFile` test the diagnostics of `PartialContent` (regenerated error flow)? -/
+def schemaStrict : Bool :=
+  Gen.HclYaml.errFlow.contains ("ParseHCLFile", "(hcl.Body).PartialContent", "returned")
+
+/-- has the spelled file a `locals` block with a label? -/
+def hasLabelled (kv : List (String × String)) : Bool :=
+  match lookup kv "hb" with
+  | none => false
+  | some hb =>
+    match parseFile (getS kv "lb" "[]") hb with
+    | some src => !src.blocks.all LBlock.plain
+    | none => false
+
+/-- what is done to the characters of the file name before the extension tests (regenerated `extSubject`) -/
+def subjectLc : Char → Char :=
+  if Gen.HclYaml.extSubject.contains "strings.ToLower" then asciiLower else id
+
+/-- the front-end `ReadAmmoConfig` selects for the file name given in token `k` (hex; absent = the default name) -/
+def routed (kv : List (String × String)) (k dflt : String) : FrontEnd :=
+  let name := match lookup kv k with
+    | some h => (unhexStr h.toList).getD dflt
+    | none => dflt
+  frontEnd subjectLc Gen.HclYaml.extCases name.toList
 
 def handle : Handler := fun input impl =>
   let kv := parseKV input
@@ -338,15 +372,29 @@ def handle : Handler := fun input impl =>
   | some d =>
     let mal := getS kv "mal"
     -- what the file MEANS (documented functions) and what the implementation's table makes of it
-    let meant : Option V := match denoted docFns kv with
+    let meant : Option V := match denoted true docFns kv with
       | none => some d
       | some r => r
+    let labelled := hasLabelled kv
     let coded : Option V :=
-      if fns == docFns then meant   -- the usual case: evaluate once
-      else match denoted fns kv with
+      if fns == docFns && !labelled then meant   -- the usual case: evaluate once
+      else match denoted schemaStrict fns kv with
         | none => some d
         | some r => r
-    if mal == "3" then
+    if routed kv "hn" "ammo.hcl" != .hcl || routed kv "yn" "ammo.yaml" != .yaml then
+      -- by the regenerated extension switch one of the two files does not reach its front-end: no prediction, the
+      -- Spec judges what was observed
+      ("-", v)
+    else if mal == "4" then
+      -- a `locals` block with a label: hcl reports it as an error and drops it; the file must be refused as a whole
+      if !labelled then ("-", "skip:no-labelled-locals-block-in-the-spelling")
+      else
+        let p := match coded with
+          | none => predictRefused d
+          | some dc => if dumpData dc == dumpData d then predict d else predictPair dc d
+        (if p.endsWith "A=?" then "-" else p, Pandora.Spec.C16.verdictSchema impl)
+    else if labelled then ("-", "skip:labelled-locals-block-outside-its-stream")
+    else if mal == "3" then
       -- a file with a `locals` block / expression that does not evaluate: it must be refused as a whole
       match meant with
       | some _ => ("-", "skip:hcl-spelling-of-a-broken-file-evaluates")
